@@ -158,7 +158,8 @@ Fixpoint has_at (t : tree) (body : list string) (att : string) : res bool :=
   | [] => Ok (has_tail t att)
   | p :: body' => match step t p with
                   | SFound _ c => has_at c body' att
-                  | SNone => Ok false           (* hasattr(None, att) *)
+                  | SNone => Ok false           (* the walk ended on None: the path does not exist (repaired C08-has-none:
+                                                   has() no longer asks hasattr(None, att), which is True for __class__ ...) *)
                   | SKeyError => Raise KeyError
                   end
   end.
